@@ -479,6 +479,16 @@ def proof_stage(ctx, search_fn=None):
         "trusted_base": list(TRUSTED_BASE_COMMON),
     })
     ctx.coq = r
+    if r["ok"] and ctx.thorough():
+        # independent re-check of the compiled files (and everything they depend on)
+        qa = coq_qargs()
+        lib = "Verif.%s.Props" % ctx.prop
+        rc, out = sh(["timeout", "1500", "coqchk", "-silent", "-o"] + qa + [lib], cwd=ROOT, timeout=1600)
+        ax = re.findall(r"^\s*([A-Za-z_][\w.']*)\s*$", out.split("Axioms:")[-1], re.M) if "Axioms:" in out else []
+        ctx.coverage["coqchk"] = {"rc": rc, "axioms_of_loaded_libraries": ax[:40], "tail": out[-400:]}
+        if rc != 0:
+            r["ok"] = False
+            r["failures"].append("coqchk rejects the compiled development: " + out[-300:])
     return r
 
 
